@@ -1,8 +1,8 @@
 package props
 
 import (
-	"time"
 	"fmt"
+	"time"
 
 	"verifharness/internal/enum"
 	"verifharness/internal/model"
@@ -95,10 +95,10 @@ func init() {
 			return g
 		}
 		fam := &vf.Family{
-			Name:   "try-nests",
-			Bounds: "all try forms of weight <=5 (quick) / <=6 (thorough): 0-2 body forms, optional (catch e 1-2 forms), optional (finally 0-2 forms), statements from 14 leaves (incl. a macro that throws while expanding and a Go builtin whose error wraps a lisp error) + (throw V) over 8 thrown objects + nested try; under a prelude defining a throwing function, a throwing macro and an outer let variable",
-			Setup:  func(t string) { tier = t; rg = newEvalRig(false); rg.ntTraceOnly = true },
-			N:      func(t string) int64 { tier = t; return gOf().Count(0, wOf(t)) },
+			Name:     "try-nests",
+			Bounds:   "all try forms of weight <=5 (quick) / <=6 (thorough): 0-2 body forms, optional (catch e 1-2 forms), optional (finally 0-2 forms), statements from 14 leaves (incl. a macro that throws while expanding and a Go builtin whose error wraps a lisp error) + (throw V) over 8 thrown objects + nested try; under a prelude defining a throwing function, a throwing macro and an outer let variable",
+			Setup:    func(t string) { tier = t; rg = newEvalRig(false); rg.ntTraceOnly = true },
+			N:        func(t string) int64 { tier = t; return gOf().Count(0, wOf(t)) },
 			Describe: func(i int64) string { return c03Wrap(gOf().Unrank(0, i)).Lisp() },
 			Run: func(i int64, r *vf.Rec) {
 				rg.compareWithModel(c03Wrap(gOf().Unrank(0, i)), []string{"e", "x"}, r, true)
@@ -131,9 +131,9 @@ func init() {
 		}
 		return &vf.Check{
 			ID: "C03", Level: "model_checking",
-			Rule: "every try/catch/finally nest of the bounded grammar runs on the real EVAL and on the definitional interpreter (handler value returned as a value, catch variable scoped to the handler, finally exactly once after body and handler, outcome unchanged by finally); result, thrown payload via ErrorValue, errors.Is for Go errors, and the ordered effect trace must agree; non-trivial = has effects",
+			Rule:        "every try/catch/finally nest of the bounded grammar runs on the real EVAL and on the definitional interpreter (handler value returned as a value, catch variable scoped to the handler, finally exactly once after body and handler, outcome unchanged by finally); result, thrown payload via ErrorValue, errors.Is for Go errors, and the ordered effect trace must agree; non-trivial = has effects",
 			Assumptions: []string{"a finally body that itself fails is swallowed (README: 'for side effects only')", "payload of unbound-symbol / arity / domain errors is opaque and compared by kind only"},
-			Families: []*vf.Family{fam, famD},
+			Families:    []*vf.Family{fam, famD},
 		}
 	})
 }
